@@ -11,6 +11,7 @@ import json
 import os
 import random
 import re
+import shutil
 import subprocess
 import sys
 import time
@@ -97,7 +98,7 @@ def coq_build(timeout=3000):
 def check_props(cid):
     """Re-check Props/<cid>.v and collect Print Assumptions per theorem."""
     src = COQ / "Props" / f"{cid}.v"
-    outdir = BUILD / "props"
+    outdir = BUILD / "props" / f"run-{os.getpid()}"
     outdir.mkdir(parents=True, exist_ok=True)
     text = _strip_comments(src.read_text())
     theorems = re.findall(r"^\s*(?:Theorem|Lemma|Corollary)\s+(\w+)", text, re.M)
@@ -109,6 +110,7 @@ def check_props(cid):
         capture_output=True,
         text=True,
     )
+    shutil.rmtree(outdir, ignore_errors=True)
     res = {
         "file": str(src.relative_to(VERIF)),
         "theorems": theorems,
@@ -226,7 +228,8 @@ def coq_eval(cid, name, imports, exprs, ty="bool", shard=300):
     Returns a list of Python values (bool for ty=bool, int for ty=nat/Z) or
     raises RuntimeError with the coqc log when a shard does not compile.
     """
-    d = BUILD / cid
+    # one directory per run: concurrent runs of the same check must not share case files
+    d = BUILD / cid / f"run-{os.getpid()}"
     d.mkdir(parents=True, exist_ok=True)
     jobs = []
     for i in range(0, len(exprs), shard):
@@ -245,6 +248,8 @@ def coq_eval(cid, name, imports, exprs, ty="bool", shard=300):
         if len(vals) != len(chunk):
             raise RuntimeError(f"verdict count mismatch in {path}: {len(vals)} vs {len(chunk)}")
         results.extend(vals)
+    if not os.environ.get("VERIF_KEEP"):
+        shutil.rmtree(d, ignore_errors=True)
     return results
 
 
